@@ -520,6 +520,7 @@ func (rw *regWorld) apply(op string, judge bool) (viol []string, digest string, 
 	var exp []expOut
 	expEv := map[string]int{}
 	addV := func(s string) { viol = append(viol, s) }
+	tolerateReread := false
 	asked := judge
 	switch f[0] {
 	case "hs":
@@ -781,7 +782,20 @@ func (rw *regWorld) apply(op string, judge bool) (viol []string, digest string, 
 			Filter:                              []model.FilterType{*model.NewFilterTypePartial()},
 			NodeManagementDetailedDiscoveryData: pe.DiscoveryData(ents, false, &st),
 		}
+		if len(f) > 3 && f[3] == "bad" {
+			// the notification lists a second element that cannot be processed (no lastStateChange): what the first
+			// element announced has happened all the same
+			bad := pe.DiscoveryData([]world.EntSpec{{Addr: []uint{7}, Type: model.EntityTypeTypeCEM}}, false, nil)
+			cmd.NodeManagementDetailedDiscoveryData.EntityInformation = append(cmd.NodeManagementDetailedDiscoveryData.EntityInformation, bad.EntityInformation...)
+		}
 		d := pe.Datagram(pe.NM(), world.LocalNM(), model.CmdClassifierTypeNotify, false, nil, cmd)
+		if len(f) > 3 && f[3] == "bad" {
+			// (the notification as a whole is rejected: one error result, C01)
+			exp = append(exp, expOut{conn: cn(p), class: "result", ref: int64(*d.Header.MsgCounter), err: 1})
+			// ... and the stack asks the peer for its complete discovery data again (unless that request is still
+			// unanswered): that read is the stack's own business (C13) and not judged here
+			tolerateReread = true
+		}
 		if f[0] == "entrm" && m.ents[p][e] {
 			effect = true
 			delete(m.ents[p], e)
@@ -854,6 +868,15 @@ func (rw *regWorld) apply(op string, judge bool) (viol []string, digest string, 
 			return viol, digest, effect
 		}
 		return nil, digest, effect
+	}
+	if tolerateReread {
+		var keep []world.Out
+		for _, o := range outs {
+			if !(o.Class == "read" && o.Fn == "NodeManagementDetailedDiscoveryData") {
+				keep = append(keep, o)
+			}
+		}
+		outs = keep
 	}
 	for _, s := range matchOuts(outs, exp) {
 		addV(s + " | op=" + op)
